@@ -6,6 +6,15 @@ ids=[p['id'] for p in props]
 
 # id -> (technique, level text, level note, design ref)
 BUILT={
+"C15": ("proptest over (collection size, client limit, order, later-page limit) full scans against a live keyset-paginated endpoint; concatenation/size/token/termination oracle",
+        "Each case follows next_page tokens from the first page to the end over real HTTP: the concatenation of pages must equal the collection in order, every page must hold at most the effective limit (client limit capped at 10000, default 100), a token must be present exactly when the page is non-empty, and the scan must finish within ceil(n/l)+1 requests (one more is reported as non-termination, not waited for).",
+        "Sampling over n in 0..1200 densely plus 5000..25000 for large limits; the collection is static.",
+        "DESIGN.md section 4 C15"),
+"C20": ("proptest over raw-TCP handshakes (key bytes, Connection/Upgrade list spellings, presence/wrongness mask, post-upgrade payloads); own SHA-1/base64 digest oracle and byte-exact echo",
+        "All four elements present (in any legal list spelling: case, order, extra tokens, OWS, several field lines) => 101 with Sec-WebSocket-Accept equal to an independently computed RFC 6455 digest, Upgrade/Connection response headers, channel handler entered exactly once, payload of up to 256 KiB echoed byte for byte; any element missing or wrong => 4xx and the channel handler never entered.",
+        "Sampling; empty key values not generated; SHA-1/base64 implementation self-tested on the RFC vector at start-up.",
+        "DESIGN.md section 4 C20"),
+
 "C11": ("proptest over (server default x endpoint override x extractor x body length around/beyond the limit x framing/chunk boundaries), live servers; accepted-intact-iff-within-limit oracle plus bytes-observed bound",
         "For every generated configuration a live server is started; a body of exactly chosen length (0, L-2..L+2, 2L, up to 1 MiB) is sent with content-length or chunked framing whose chunk boundaries fall at, just before and just after the limit; len <= L must be delivered intact (length + hash, and the handler sees limit L), len > L must get a 4xx with buffered handlers never entered; the largest running total any streaming handler observed after each chunk and the largest buffer any buffered handler saw must never exceed L.",
         "Sampling; frame boundaries inside hyper are influenced but not controlled by the chunking; an empty body for the JSON extractor is replaced by a 1-byte body.",
